@@ -1208,10 +1208,10 @@ class VM:
             return UNDEFINED
 
         if isinstance(obj, str):
-            # String character access
+            # String character access (canonical index strings only: no "01", " 1", "+1")
             try:
                 idx = int(key_str)
-                if 0 <= idx < len(obj):
+                if str(idx) == key_str and 0 <= idx < len(obj):
                     return obj[idx]
             except ValueError:
                 pass
